@@ -209,6 +209,18 @@ def mon_C03(sc, trace, probes, info):
     return out
 
 
+def _has_signal_context(e, CoreInterrupt):
+    """was this exception raised while an internal signal was unwinding the code (the signal is in its context chain)?"""
+    seen = 0
+    e = getattr(e, '__context__', None)
+    while e is not None and seen < 50:
+        if isinstance(e, CoreInterrupt):
+            return True
+        e = e.__context__
+        seen += 1
+    return False
+
+
 def _has_first(sc):
     from harness import gen
     return any(s[0] == 'first' for r in sc['roots'] for s in gen.walk(r))
@@ -353,7 +365,10 @@ def mon_C05(sc, trace, probes, info):
             out.append(('scope %r ended with %r which is neither its body exception, a Concurrent of its children, nor a privileged child failure' % (name, exc), None))
         if failures and (isinstance(exc, usim.Concurrent) and exc is not body_exc or (isinstance(exc, promote) and any(exc is e for e in priv))):
             tf = failures[0][2]
-            if t != tf:
+            # (promptness presupposes that the body lets the scope's interrupt through: a body whose cleanup code raises
+            # something else while the interrupt unwinds it, and whose own handler then catches that, has discarded it)
+            swallowed = any(q[0] == 'caught' and tf <= q[2] <= t and _has_signal_context(q[1], CoreInterrupt) for q in probes)
+            if t != tf and not swallowed:
                 out.append(('scope %r ended at %r but its first child failure happened at %r' % (name, t, tf), None))
     return out
 
@@ -378,7 +393,11 @@ def mon_C07(sc, trace, probes, info):
         trig = expected_resume(w, t0)
         if trig == 'n/a':
             trig = true_at.get(name)
-        if trig is not None and t1 > trig:
+        swallowed = trig is not None and trig != 'n/a' and any(
+            q[0] == 'caught' and trig <= q[2] <= t1 and _has_signal_context(q[1], CoreInterrupt) for q in probes)
+        if trig is not None and t1 > trig and not swallowed:
+            # (not demanded of a body that discards the interrupt: its cleanup code raised something else while the interrupt
+            # unwound it, and its own handler caught that)
             k = kinds.get(name)
             finding = 'D4b' if (k is not None and k[2] and k[3] is False) else None
             out.append(('until %r (%r) entered at %r was left at %r although its notification fired at %r' % (name, w, t0, t1, trig), finding))
